@@ -100,4 +100,7 @@ def prun (w : World) : List (Bool × Op) → World
 
 def World.init : World := ⟨Chain.init, Chain.init⟩
 
+/-- the state of chain `side` of a world (`false` = A, `true` = B) -/
+def chainOf (w : World) (side : Bool) : ChainState := if side then w.b else w.a
+
 end IbcVerif.Chain
